@@ -34,6 +34,27 @@ type Mutant struct {
 func (m Mutant) patch() string { return strings.TrimPrefix(m.File, "patch:") }
 func (m Mutant) isPatch() bool { return strings.HasPrefix(m.File, "patch:") }
 
+const neutralRule = "(none: must stay silent)"
+
+// neutralPatches lists /verif/neutral/<area>/<n>/patch.diff: behaviour-preserving refactorings
+// written by sub-agents that were told nothing about the checks. Every check must stay silent on
+// every one of them (replayed in the thorough tier; a "false-alarm" status is a defect of the check).
+func neutralPatches(prop string) []Mutant {
+	self, err := os.Executable()
+	if err != nil {
+		return nil
+	}
+	root := filepath.Join(filepath.Dir(filepath.Dir(self)), "neutral")
+	ps, _ := filepath.Glob(filepath.Join(root, "*", "*", "patch.diff"))
+	sort.Strings(ps)
+	var out []Mutant
+	for _, p := range ps {
+		d := filepath.Dir(p)
+		out = append(out, Mutant{Prop: prop, Name: "neutral-" + filepath.Base(filepath.Dir(d)) + "-" + filepath.Base(d), Rule: neutralRule, File: "patch:" + p})
+	}
+	return out
+}
+
 // seededMutants lists /verif/seeded/<prop>/<n>/patch.diff for the properties whose check is
 // recorded as detecting it (meta.json "detected_by").
 func seededMutants(prop string) []Mutant {
@@ -142,6 +163,24 @@ func runOneMutant(m Mutant, repo string, self string) MutantResult {
 		res.Status, res.Detail = "skipped", err.Error()
 		return res
 	}
+	if m.Rule == neutralRule {
+		// a behaviour-preserving refactoring: the check must stay silent
+		if code == 0 {
+			res.Status, res.Detail = "silent", "no alarm on a behaviour-preserving refactoring"
+			return res
+		}
+		res.Status = "false-alarm"
+		for _, l := range strings.Split(out, "\n") {
+			if strings.HasPrefix(l, "violation: rule=") {
+				res.Detail = trunc(l, 200)
+				break
+			}
+		}
+		if code == 2 {
+			res.Detail = "checker could not analyse the refactored tree: " + trunc(out, 200)
+		}
+		return res
+	}
 	if code == 1 && strings.Contains(out, "VIOLATION property="+m.Prop) {
 		for _, l := range strings.Split(out, "\n") {
 			if strings.HasPrefix(l, "violation: rule=") && strings.Contains(strings.SplitN(l, " ", 3)[1], m.Rule) {
@@ -173,6 +212,9 @@ func runMutants(prop, repo string) []MutantResult {
 		}
 	}
 	ms = append(ms, seededMutants(prop)...)
+	if prop != "" {
+		ms = append(ms, neutralPatches(prop)...)
+	}
 	results := make([]MutantResult, len(ms))
 	sem := make(chan struct{}, 6)
 	var wg sync.WaitGroup
@@ -189,7 +231,7 @@ func runMutants(prop, repo string) []MutantResult {
 	wg.Wait()
 	sort.SliceStable(results, func(i, j int) bool { return results[i].Name < results[j].Name })
 	for _, r := range results {
-		if r.Status != "detected" {
+		if r.Status != "detected" && r.Status != "silent" {
 			fmt.Printf("mutant %-60s %s %s\n", r.Name, r.Status, r.Detail)
 		}
 	}
@@ -205,6 +247,8 @@ func cmdMutants(args []string) int {
 	det, miss, skip := 0, 0, 0
 	for _, r := range rs {
 		switch r.Status {
+		case "silent":
+			det++
 		case "detected":
 			det++
 		case "missed":
